@@ -328,7 +328,7 @@ func (g G) drawSSO(label string, w *WorldCfg, sp int) *MsgSpec {
 	m.ID = "_" + sessionMarker(g.intn(label+".idn", 1000)) + g.text(label+".id", "", false)
 	if g.chance(label+".relay", 70) {
 		m.HasRelay = true
-		m.RelayState = g.text(label+".relayv", "relay", false)
+		m.RelayState = g.text(label+".relayv", "relay"+strings.TrimPrefix(strings.SplitN(m.ID, "kx", 2)[0], "_")+"kx", false)
 	}
 	m.DestMode = g.pick(label+".dest", "advertised", "advertised", "absent")
 	if g.chance(label+".protobind", 35) && len(c.ACS) > 0 {
@@ -460,6 +460,8 @@ func drawPlan(t *rapid.T, prop, family string) *Plan {
 		p = g.planC07()
 	case "C11":
 		p = g.planC11()
+	case "C15":
+		p = g.planC15()
 	case "C12":
 		p = g.planC12()
 	case "C13":
